@@ -40,6 +40,11 @@ CLAIMED = {
 
  "C06": sim("One real bus with the real transport controller over a simlink transport; the harness plays the transport and issues establish / duplicate / same-UUID replacement / loss / duplicate loss / loss of unknown links as overlapping transport callbacks, the loss report owed after each system Close arrives at a driver-chosen later point, readers hold the controller lock while parked so that the TryLock fast path fails; at every quiescent point GetPeerLinks, watcher directive values and both internal tables must equal the per-object reference model (established and not yet lost), lost links must be closed, and a live link may only be closed for a cause.",
             "5 (C06)", "refinement against a per-object liveness model at quiescence + close-cause invariant", "Trusts the simlink stub as a well-behaved link (one loss report per Close) and the patched util/broadcast; controllerbus internals run real but their interleavings are repeated, not explored. The quic.Transport clauses of the property are not simulated yet."),
+
+ "C04": sim("One real bus with two real transport controllers (local peers S1, S2) over simlink transports; links to three remote identities, self-links and S1<->S2 links are established and lost, EstablishLinkWithPeer directives with every combination of source (none, S1, S2, a stranger) and destination are added and released, incoming streams with valid headers are injected; every value ever emitted and every mounted stream delivered is checked against the link it belongs to, and at quiescence each directive's value set must equal the live links between exactly the requested peers.",
+            "5 (C04)", "per-value invariant + set equality with the reference model at quiescence", "Trusts the simlink stub; expiry of unreferenced links after the hold-open period is modelled as a loss."),
+ "C07": sim("Real opener (mountedLink.OpenMountedStream) and real receiver (HandleIncomingStream, header reader, protocol validation, handler lookup through the bus) joined by a simulator-owned byte stream with driver-chosen chunking; protocol IDs from 1 byte to the exact header limit (boundary-biased), payload written right behind the header; ten kinds of malformed or stalled headers written by the harness; valid headers must be dispatched exactly once with the written protocol ID and the link's peers and hand the handler exactly the payload, malformed ones must end in a closed stream without dispatch. A valid header that the driver itself delays beyond the 5 s establish deadline is treated as a stalled header.",
+            "5 (C07)", "exact equality of protocol ID, peers and payload per stream + closed-without-dispatch for malformed input", "Trusts the simlink stub and its fake-clock read deadlines."),
 }
 
 NA_PURE = {
